@@ -1,6 +1,6 @@
 """Source of truth for MANIFEST.json (run: python -m vlib.mkmanifest)."""
 
-REPO_FIX_COMMITS = ["04f98b2", "9ce180e", "cfc2ed2", "1d8dc7e", "8ef3efb", "a7c5d9c", "2fb9873", "812fbc2", "343713a", "2036f84", "8402cd8", "1e36e27", "ed92c78", "c0485e3", "a0c4921", "9103dfd"]
+REPO_FIX_COMMITS = ["04f98b2", "9ce180e", "cfc2ed2", "1d8dc7e", "8ef3efb", "a7c5d9c", "2fb9873", "812fbc2", "343713a", "2036f84", "8402cd8", "1e36e27", "ed92c78", "c0485e3", "a0c4921", "9103dfd", "b4aac6a"]
 
 CHECKS = {
     "C10": {
@@ -38,6 +38,18 @@ CHECKS = {
         "text": "The real HTTPConnectionPool / ProxyManager is driven through scripted sequences of connect errors, read errors, TLS record errors and retryable statuses; the attempts observed at the server are counted against total and the per-category budgets, re-sends of non-idempotent methods after read errors or statuses are flagged, every time.sleep of the retry module is bounded by backoff_max or the Retry-After just received, the caller's Retry object is snapshot-compared, and the final exception/response is compared with the last cause; an ample-budget liveness clause guards against a vacuous never-retry.",
         "note": "Trusts vlib/servers.py ScriptServer and the ground-truth category table in props/c04.py. CONNECT tunnels are exercised in C09; known finding KF-C04-proxy (reset/EOF at the status line behind a proxy is classified 'other') is matched by signature and counted.",
         "design_ref": "DESIGN.md section 4, C04",
+    },
+    "C05": {
+        "technique": "bounded-exhaustive redirect chains (length <= 2 quick / <= 3 thorough x 5 status codes x 3 origins x 18 policy values x placement x entry point) + Hypothesis-generated graphs with loops (<= 6 hops) on an in-memory multi-origin network with proxy and null-TLS; oracle: the graph is the reference walk (Location values are built from the intended next node), compared with what every origin's server received",
+        "text": "Each case sends one request through PoolManager, ProxyManager (forwarding and CONNECT tunnel) or a bare pool into a generated redirect graph; the sequence of (origin, method, target, body, content headers) seen by the servers must be a prefix of the graph walk no longer than 1 + the budget of the policy in effect (request value, else pool/manager value, else default), 303 must turn into a body-less GET without content headers, other codes keep method and body, every Location form must resolve to the intended node, and the ending must be the 200, MaxRetryError or the last 3xx as raise_on_redirect says.",
+        "note": "Trusts vlib/world.py, vlib/nulltls.py (routing only), vlib/redirects.py. The budget of a policy value is read from the documentation (props/c05.py effective/policy_budget).",
+        "design_ref": "DESIGN.md section 4, C05",
+    },
+    "C06": {
+        "technique": "bounded-exhaustive (6 chain shapes x 3 kinds of origin difference x 5 codes x header sets x 5 container modes x entry x casings) + Hypothesis-generated chains, header casings, repeated fields and remove_headers_on_redirect sets on the in-memory multi-origin network; oracle: invariant over the per-origin wire log (no policy-named header from the first cross-origin hop on; all other headers preserved; caller objects unchanged; bare pool raises HostChangedError)",
+        "text": "Sensitive headers in generated letter casings are carried as dict, HTTPHeaderDict with repeated fields, manager defaults or request-over-manager headers through redirect chains whose hops change host, port or scheme (or only case / explicit default port); every request each origin's server received is inspected for leaked names and for the preservation of all other headers.",
+        "note": "Trusts vlib/world.py, vlib/redirects.py. Over-stripping on same-origin hops is allowed (only leaks are violations).",
+        "design_ref": "DESIGN.md section 4, C06",
     },
     "C08": {
         "technique": "bounded-exhaustive (SAN name, host) pair enumeration + Hypothesis SAN lists / IP spellings / pin mutations; oracle: independent three-valued RFC 6125 reference (strict subset, liberal superset) and hashlib digest comparison",
